@@ -107,6 +107,7 @@ def verify(harness, shape, params=None, kind='automaton', seed=0,
         n_random = N_RANDOM
     functions = dict()
     instances = list()
+    completed = [0]
 
     def replayer(model, inputs, name):
         t0 = time.time()
@@ -134,6 +135,7 @@ def verify(harness, shape, params=None, kind='automaton', seed=0,
         ctx = Ctx(w, params)
         try:
             harness(ctx)
+            completed[0] += 1
         finally:
             functions.update(ctx.functions)
             inst = getattr(ctx, 'instances', None)
@@ -143,6 +145,11 @@ def verify(harness, shape, params=None, kind='automaton', seed=0,
     t0 = time.time()
     try:
         records, stats = eng.explore(h)
+        if completed[0] == 0 and not any(r['status'] == 'refuted' for r in records):
+            # vacuity guard: every path ended at a loop cut (or was infeasible),
+            # so no postcondition of the harness was ever stated
+            raise eng.Unsupported('no path reaches the end of the contract harness '
+                                  '(every path ends at a cut back edge)')
     except (eng.Unsupported, eng.OutOfReach) as e:
         # The code no longer has the shape the sidecar's proof is written for,
         # so no verdict can be DEDUCED.  Before giving up (exit 3), evaluate the
@@ -169,6 +176,17 @@ def verify(harness, shape, params=None, kind='automaton', seed=0,
                 return dict(records=[rec], functions=functions,
                             stats=dict(paths=0, solver_s=0.0,
                                        wall_s=round(time.time() - t0, 3)))
+        else:
+            # nothing fails: the family is DOWNGRADED to a bounded check for
+            # this run (reported, never counted as proved)
+            return dict(records=[], functions=functions,
+                        stats=dict(paths=0, solver_s=0.0,
+                                   wall_s=round(time.time() - t0, 3)),
+                        downgraded=f'{type(e).__name__}: {e}',
+                        bounded=dict(evaluations=3 * n_random, failures=[],
+                                     what='contract postconditions evaluated on the real code over seeded '
+                                          'random inputs of the same shape (deductive proof not applicable '
+                                          f'to the current source: {e})'))
         raise
     stats['wall_s'] = round(time.time() - t0, 3)
     return dict(records=records, stats=stats, functions=functions,
